@@ -26,7 +26,7 @@ def obligations():
     enc = ["mdtraj.core.selection.parse_selection", "mdtraj.core.selection.BinaryInfixOperand/UnaryInfixOperand/RangeCondition/InListCondition/RegexInfixOperand/SelectionKeyword/Literal/_RewriteNames",
            "mdtraj.core.topology.Atom.is_backbone/is_sidechain/segment_id", "mdtraj.core.topology.Residue.is_protein/is_water/code"]
     o = []
-    for fam, n in (("parens_deep", 1), ("keywords", 1), ("implicit_eq", 1), ("lists", 1), ("ranges", 1), ("cmp_ops", 1), ("regex", 1), ("bool_depth1", 4), ("bool_depth2", 8)):
+    for fam, n in (("literals_special", 1), ("parens_deep", 1), ("keywords", 1), ("implicit_eq", 1), ("lists", 1), ("ranges", 1), ("cmp_ops", 1), ("regex", 1), ("bool_depth1", 4), ("bool_depth2", 8)):
         for c in range(n):
             o.append(Obl(f"C12.{fam}" + (f".{c}" if n > 1 else ""), "py", H, "check_family", enc, f"family {fam}" + (f", slice {c}/{n}" if n > 1 else "") + "; one symbolic atom",
                          "mdtraj's AST is equivalent to the documented meaning for every atom; every documented expression parses", 600, params={"family": fam, "chunk": c, "nchunks": n}))
